@@ -402,6 +402,43 @@ pub fn strategy(dim: usize, max_ops: usize) -> BoxedStrategy<Case> {
         .boxed()
 }
 
+/// Seed corpus for the coverage-guided deserialisation target (fuzz/fuzz_targets/c13_deserialize.rs):
+/// documents of library-built triangulations, each prefixed by one byte '0' + D.
+pub fn emit_corpus(dir: &str) -> i32 {
+    fn docs<const D: usize>(dir: &std::path::Path) -> usize {
+        let mut n = 0;
+        for (k, npts) in [(0usize, D + 1), (1, D + 3), (2, D + 5)] {
+            // small dyadic pseudo-random coordinates (fixed LCG: the corpus is the same on every run)
+            let mut x: u64 = 0x9E37_79B9_7F4A_7C15u64.wrapping_mul(D as u64 * 31 + k as u64 + 1);
+            let mut next = || {
+                x = x.wrapping_mul(6364136223846793005).wrapping_add(1442695040888963407);
+                ((x >> 40) % 257) as f64 / 16.0 - 8.0
+            };
+            let verts: Vec<_> = (0..npts).map(|i| mk_vertex::<i32, D>(&(0..D).map(|_| next()).collect::<Vec<f64>>(), uuid_for(77 + k as u64, i), Some(i as i64))).collect();
+            let Ok(mut dt) = DtD::<D>::with_topology_guarantee(&K::new(), &verts, delaunay::core::triangulation::TopologyGuarantee::PLManifold) else { continue };
+            if k == 2 {
+                let first = dt.vertices().next().map(|(_, b)| *b);
+                if let Some(v) = first {
+                    let _ = dt.remove_vertex(&v);
+                }
+            }
+            if let Ok(txt) = serde_json::to_string(dt.tds()) {
+                let mut bytes = vec![b'0' + D as u8];
+                bytes.extend_from_slice(txt.as_bytes());
+                if std::fs::write(dir.join(format!("d{D}-{k}.json")), bytes).is_ok() {
+                    n += 1;
+                }
+            }
+        }
+        n
+    }
+    let dir = std::path::Path::new(dir);
+    let _ = std::fs::create_dir_all(dir);
+    let n = docs::<2>(dir) + docs::<3>(dir) + docs::<4>(dir);
+    println!("{n} corpus documents written to {}", dir.display());
+    if n > 0 { 0 } else { 2 }
+}
+
 pub fn run_shard(ctx: &mut Ctx) {
     let thorough = ctx.tier == Tier::Thorough;
     let max_ops = if thorough { 16 } else { 6 };
